@@ -237,10 +237,28 @@ func (r *scopeRegistry) Subscope(parent *scope, prefix string, tags map[string]s
 	defer subscopeBucket.mu.Unlock()
 
 	if s, ok := r.lockedLookup(subscopeBucket, sanitizedKey); ok {
-		if _, ok = r.lockedLookup(subscopeBucket, unsanitizedKey); !ok {
-			subscopeBucket.s[unsanitizedKey] = s
+		if !s.closed.Load() || s.testScope {
+			if _, ok = r.lockedLookup(subscopeBucket, unsanitizedKey); !ok {
+				subscopeBucket.s[unsanitizedKey] = s
+			}
+			return s
 		}
-		return s
+
+		// A closed scope that no report pass has collected yet is still
+		// registered under the sanitized key (it was not found above because
+		// this caller used another unsanitized spelling). Never hand it out:
+		// report what it still holds, drop it and create a fresh scope.
+		switch {
+		case parent.reporter != nil:
+			s.report(parent.reporter)
+		case parent.cachedReporter != nil:
+			s.cachedReport()
+		}
+		delete(subscopeBucket.s, sanitizedKey)
+		if cur, ok := r.lockedLookup(subscopeBucket, unsanitizedKey); ok && cur == s {
+			delete(subscopeBucket.s, unsanitizedKey)
+		}
+		s.clearMetrics()
 	}
 
 	allTags := mergeRightTags(parent.tags, tags)
